@@ -225,6 +225,12 @@ func runC08(w *World) {
 		return
 	}
 	c.SendSeg(stream)
+	if !positive && w.Chance(1, 4, "fin-behind") {
+		// the remote ends the stream right behind its last byte: everything it sent
+		// still has to be read and judged
+		c.FIN()
+		w.Probe("fin-right-behind-the-stream")
+	}
 	w.Quiesce()
 	w.NonTrivial = true
 	fs := NewFrames(c, before)
